@@ -43,7 +43,8 @@ impl ValueFile {
         let mut file = match params.val_buf_size {
             FileBufSizeParam::Size(val) => {
                 let dat_buf_chunk_size = CHUNK_SIZE;
-                let dat_buf_num_chunks = val / dat_buf_chunk_size;
+                // the buffer needs room for the pinned first chunk and a working chunk.
+                let dat_buf_num_chunks = (val / dat_buf_chunk_size).max(2);
                 VarFile::with_capacity(
                     piece_mgr,
                     "val",
